@@ -89,10 +89,15 @@ def feat_triple(v):
     return [1, m, k]
 
 
-def raw_weights(x, y, i):
+def r_keep(p=P_EXP, krig=KRIG):
+    """distance at which exp(-(d/krig)**p) crosses 0.005"""
+    return krig * (-math.log(0.005)) ** (1 / p)
+
+
+def raw_weights(x, y, i, p=P_EXP, krig=KRIG):
     """The source's expression, evaluated by NumPy (float64)."""
     offset = np.abs(x - x[i] + 1j * (y - y[i]))
-    return np.exp(-((offset / KRIG) ** P_EXP))
+    return np.exp(-((offset / krig) ** p))
 
 
 # ---------------------------------------------------------------------------
@@ -281,7 +286,7 @@ def call_cbin(arg, nc, **kw):
     return out
 
 
-def impl_interp(x, y, labels, data, dtype, label_float, layout="C"):
+def impl_interp(x, y, labels, data, dtype, label_float, layout="C", p=P_EXP, krig=KRIG):
     """layout: C-contiguous array, Fortran-ordered array, or a strided view into a wider array (the columns
     in between must stay untouched); coordinates as given or as float arrays."""
     lab = np.array(labels, dtype=np.float64 if label_float else np.int64)
@@ -299,7 +304,8 @@ def impl_interp(x, y, labels, data, dtype, label_float, layout="C"):
         x, y = np.asarray(x, dtype=np.float64), np.asarray(y, dtype=np.float32)
     with warnings.catch_warnings():
         warnings.simplefilter("ignore")        # 0/0 when a channel has no neighbour left
-        out = V().interpolate_bad_channels(arg, channel_labels=lab, x=x, y=y)
+        kw = {} if (p, krig) == (P_EXP, KRIG) else {"p": p, "kriging_distance_um": krig}
+        out = V().interpolate_bad_channels(arg, channel_labels=lab, x=x, y=y, **kw)
     why = bad_array(out, d.shape, d.dtype)
     if why:
         raise BadReturn("interpolate_bad_channels returned " + why)
@@ -318,7 +324,7 @@ def dtype_tol(dtype, scale):
     return (TOL if dt == np.float64 else 1e-5) * scale
 
 
-def oracle_interp(x, y, labels, data, out, dtype):
+def oracle_interp(x, y, labels, data, out, dtype, p=P_EXP, krig=KRIG):
     """Property predicate on the implementation's output (no model involved)."""
     bad = []
     lab = np.asarray(labels)
@@ -333,8 +339,8 @@ def oracle_interp(x, y, labels, data, out, dtype):
     tol = dtype_tol(dtype, scale)
     for i in np.flatnonzero(isbad):
         dist = np.hypot(np.asarray(x, dtype=float) - float(x[i]), np.asarray(y, dtype=float) - float(y[i]))
-        near = (~isbad) & (dist <= R_KEEP * (1 + 1e-9))
-        surely = (~isbad) & (dist <= R_KEEP * (1 - 1e-9))
+        near = (~isbad) & (dist <= r_keep(p, krig) * (1 + 1e-9))
+        surely = (~isbad) & (dist <= r_keep(p, krig) * (1 - 1e-9))
         if not near.any():
             if np.any(out[i] != 0):
                 bad.append("isolated bad channel %d is not zeroed" % i)
@@ -345,7 +351,7 @@ def oracle_interp(x, y, labels, data, out, dtype):
     return bad
 
 
-def oracle_weights(x, y, labels):
+def oracle_weights(x, y, labels, p=P_EXP, krig=KRIG):
     """Read the linear map off the implementation with identity data: row i of the
     output is the weight vector applied to channel i."""
     bad = []
@@ -354,7 +360,8 @@ def oracle_weights(x, y, labels):
     isbad = (lab == 1) | (lab == 2)
     with warnings.catch_warnings():
         warnings.simplefilter("ignore")
-        out = V().interpolate_bad_channels(np.eye(nc), channel_labels=lab.astype(float), x=x, y=y)
+        kw = {} if (p, krig) == (P_EXP, KRIG) else {"p": p, "kriging_distance_um": krig}
+        out = V().interpolate_bad_channels(np.eye(nc), channel_labels=lab.astype(float), x=x, y=y, **kw)
     why = bad_array(out, (nc, nc), np.float64)
     if why:
         raise BadReturn("interpolate_bad_channels returned " + why)
@@ -365,10 +372,10 @@ def oracle_weights(x, y, labels):
             bad.append("negative or NaN weight for channel %d" % i)
         if np.any(w[isbad] != 0):
             bad.append("channel %d is repaired from a dead/noisy channel" % i)
-        if np.any(w[dist > R_KEEP * (1 + 1e-9)] != 0):
+        if np.any(w[dist > r_keep(p, krig) * (1 + 1e-9)] != 0):
             bad.append("channel %d is repaired from a channel beyond the kriging range" % i)
         s = float(w.sum())
-        has = bool(((~isbad) & (dist <= R_KEEP * (1 - 1e-9))).any())
+        has = bool(((~isbad) & (dist <= r_keep(p, krig) * (1 - 1e-9))).any())
         if has and abs(s - 1) > 1e-12:
             bad.append("weights of channel %d sum to %.6g, not 1" % (i, s))
         if not has and not (abs(s - 1) <= 1e-12 or s == 0):
@@ -401,14 +408,14 @@ def check_weight_cut(ctx, name, x, y, seen):
             return
 
 
-def enc_interp(x, y, labels, data_int, kd):
+def enc_interp(x, y, labels, data_int, kd, p=P_EXP, krig=KRIG):
     nc = len(labels)
     ns = len(data_int[0]) if nc else 0
     inp = [1, nc, ns, kd] + [int(l) for l in labels]
     bads = [i for i, l in enumerate(labels) if l in (1, 2)]
     inp.append(len(bads))
     for i in bads:
-        for w in raw_weights(x, y, i):
+        for w in raw_weights(x, y, i, p, krig):
             inp.extend(dy(w))
     for row in data_int:
         inp.extend(int(v) for v in row)
@@ -476,7 +483,10 @@ def part_interp(ctx, st, model):
                  for _ in range(ns)] for _ in range(nc)]
         cases.append({"geom": name, "x": x, "y": y, "labels": list(labels), "data_int": data, "kd": kd,
                       "dtype": dtype or "float64", "label_float": rng.random() < 0.5,
-                      "layout": rng.choice(["C", "C", "C", "F", "view", "floatxy"])})
+                      "layout": rng.choice(["C", "C", "C", "F", "view", "floatxy"]),
+                      # the decay exponent and the kriging distance are parameters of the function
+                      "p": P_EXP if rng.random() < 0.88 else rng.choice([0.5, 1.0, 2.0, 1.3]),
+                      "krig": KRIG if rng.random() < 0.88 else rng.choice([10, 40, 20.5, 20])})
 
     # (a) every label vector over {0,1,2,3} on small probes
     nmax_exh = 7 if ctx.thorough() else 5
@@ -522,21 +532,22 @@ def part_interp(ctx, st, model):
         data = [[v * scale_f for v in row] for row in c["data_int"]]
         d = describe_interp(c)
         try:
-            out = impl_interp(x, y, labels, data, c["dtype"], c["label_float"], c["layout"])
+            out = impl_interp(x, y, labels, data, c["dtype"], c["label_float"], c["layout"], c["p"], c["krig"])
         except Exception as e:
             ctx.fail(str(e) if isinstance(e, BadReturn) else "interpolate_bad_channels raised %r" % (e,), d,
                      {"op": "interp", "kind": "exception"})
             continue
-        for b in oracle_interp(x, y, labels, data, out, c["dtype"]):
+        default_par = (c["p"], c["krig"]) == (P_EXP, KRIG)
+        for b in oracle_interp(x, y, labels, data, out, c["dtype"], c["p"], c["krig"]):
             ctx.fail(b, d, {"op": "interp", "kind": b.split()[0]})
-        key = (c["geom"], tuple(labels), x.tobytes(), y.tobytes())
+        key = (c["geom"], tuple(labels), x.tobytes(), y.tobytes(), c["p"], c["krig"])
         if key not in weight_checked:
             weight_checked.add(key)
             try:
-                wbad, srcs = oracle_weights(x, y, labels)
+                wbad, srcs = oracle_weights(x, y, labels, c["p"], c["krig"])
                 for b in wbad:
                     ctx.fail(b, d, {"op": "interp", "kind": "weights"})
-                if c["geom"] == "NP2_4shank":
+                if c["geom"] == "NP2_4shank" and default_par:
                     far = far_sources_4shank(labels, srcs)
                     if far:
                         ctx.fail("4-shank header: channel %d (shank %d) is repaired from channel %d on shank %d, "
@@ -544,7 +555,7 @@ def part_interp(ctx, st, model):
                                  {"op": "interp", "kind": "nearby", "geom": "NP2_4shank"})
                 # geometry model (op 5): the channels each dead/noisy channel is repaired from, read off the
                 # implementation with identity data, against {not dead/noisy, squared distance <= 5201}
-                if srcs and all(float(v) == int(v) for v in y):
+                if srcs and default_par and all(float(v) == int(v) for v in y):
                     check_weight_cut(ctx, c["geom"], x, y, cut_checked)
                     geo_in.append([5, len(labels)] + [int(l) for l in labels] + [int(v) for v in x] +
                                   [int(v) for v in y])
@@ -556,7 +567,9 @@ def part_interp(ctx, st, model):
                 ctx.fail("interpolate_bad_channels raised %r on identity data" % (e,), d,
                          {"op": "interp", "kind": "exception"})
             st.evals += 1
-        inputs.append(enc_interp(x, y, labels, c["data_int"], c["kd"]))
+        inputs.append(enc_interp(x, y, labels, c["data_int"], c["kd"], c["p"], c["krig"]))
+        if not default_par:
+            st.count("interp_nondefault_p_or_kriging")
         outs.append(out)
         keep.append(c)
         st.evals += 1
@@ -639,7 +652,8 @@ def part_interp(ctx, st, model):
 def describe_interp(c):
     return {"op": "interp", "geom": c["geom"], "x": [int(v) for v in c["x"]], "y": [float(v) for v in c["y"]],
             "labels": c["labels"], "data_int": c["data_int"], "kd": c["kd"], "dtype": c["dtype"],
-            "label_float": c["label_float"], "layout": c.get("layout", "C")}
+            "label_float": c["label_float"], "layout": c.get("layout", "C"), "p": c.get("p", P_EXP),
+            "krig": c.get("krig", KRIG)}
 
 
 # ---------------------------------------------------------------------------
@@ -780,6 +794,31 @@ def part_rule(ctx, st, model):
             continue
         for (up, sim, lab, feats) in res:
             handle(nc, fs, seed_desc, up, sim, lab, feats, False)
+    # display=True draws a figure and must not change what is returned
+    try:
+        import matplotlib
+        matplotlib.use("Agg")
+        import matplotlib.pyplot as plt
+    except Exception:
+        plt = None
+    ctx.coverage["display_path_driven"] = plt is not None
+    if plt is not None:
+        x, fs = background(77, 24, 1024, 30000)[0], 30000
+        x[3] = 0
+        dd = {"op": "rule-display", "nc": 24, "ns": 1024, "fs": fs}
+        try:
+            with warnings.catch_warnings():
+                warnings.simplefilter("ignore")
+                la, fa = call_detect(x, fs)
+                lb, fb = call_detect(x, fs, display=True)
+            plt.close("all")
+            if not np.array_equal(la, lb) or any(not np.array_equal(fa[k], fb[k], equal_nan=True)
+                                                 for k in ("xcor_hf", "xcor_lf", "psd_hf")):
+                ctx.fail("display=True changes the labels or features", dd, {"op": "rule", "kind": "display"})
+            st.evals += 1
+            st.count("rule_display_true")
+        except Exception as e:
+            ctx.fail(explain(e, "detect_bad_channels(display=True)"), dd, {"op": "rule", "kind": "exception"})
     # steered features: scipy.signal.medfilt is replaced, for the duration of the call, by a stub that makes the
     # detrended coherence (xcor_hf) and the coherence trend (xcor_lf + 1) take prescribed values, so that the
     # recommendation block sees every pattern of runs / gaps / ties / NaN - the rule code itself is the real one
@@ -934,18 +973,25 @@ def part_mode(ctx, st, model):
                     return np.array(_b[k], dtype=float), {"f": np.zeros(len(_b[k]))}
                 orig = voltage.detect_bad_channels
                 voltage.detect_bad_channels = stub
-                d = {"op": "mode", "nc": nc, "nsync": nsync, "ns": ns, "n_batches": nb, "batches": batches}
+                dur = rng.choice([None, None, 0.3, 0.05, 0.1, 0.25] + ([0.5] if ns >= 30000 else []))
+                d = {"op": "mode", "nc": nc, "nsync": nsync, "ns": ns, "n_batches": nb, "batches": batches,
+                     "batch_duration": dur}
+                kwd = {} if dur is None else {"batch_duration": dur}
                 try:
-                    flags = call_cbin(sr, nc, n_batches=nb)
+                    flags = call_cbin(sr, nc, n_batches=nb, **kwd)
                 except Exception as e:
                     ctx.fail(explain(e, "detect_bad_channels_cbin"), d, {"op": "mode", "kind": "exception"})
                     continue
                 finally:
                     voltage.detect_bad_channels = orig
                 want = [np_mode([b[c] for b in batches]) for c in range(nc)]
-                if len(calls) != nb or any(s[0] != nc for s in calls):
-                    ctx.fail("detect_bad_channels_cbin did not label n_batches batches of the nc data channels", d,
-                             {"op": "mode", "kind": "batches"})
+                du = 0.3 if dur is None else dur
+                widths = [min(ns, int((t0 + du) * fs)) - int(t0 * fs) for t0 in np.linspace(0, ns / fs - du, nb)]
+                if len(calls) != nb or any(s[0] != nc for s in calls) or [s[1] for s in calls] != widths:
+                    ctx.fail("detect_bad_channels_cbin did not label n_batches evenly spaced batches of batch_duration "
+                             "seconds of the nc data channels", d, {"op": "mode", "kind": "batches"})
+                if dur is not None:
+                    st.count("mode_batch_duration_%s" % dur)
                 if flags.shape != (nc,) or [int(v) for v in flags] != want:
                     ctx.fail("file labels are not the per-channel mode over the batches", d,
                              {"op": "mode", "kind": "mode"})
@@ -988,18 +1034,18 @@ def part_mode(ctx, st, model):
                 _s.append((np.array(raw), np.array(r[0])))
                 return r
             voltage.detect_bad_channels = spy
-            d = {"op": "mode-real", "nc": nc, "ns": ns, "n_batches": nb, "seed": 1000 + ridx}
+            dur = rng.choice([0.3, 0.2])
+            d = {"op": "mode-real", "nc": nc, "ns": ns, "n_batches": nb, "seed": 1000 + ridx, "batch_duration": dur}
             try:
                 with warnings.catch_warnings():
                     warnings.simplefilter("ignore")
-                    flags = call_cbin(sr, nc, n_batches=nb)
+                    flags = call_cbin(sr, nc, n_batches=nb, **({} if dur == 0.3 else {"batch_duration": dur}))
             except Exception as e:
                 ctx.fail(explain(e, "detect_bad_channels_cbin"), d, {"op": "mode", "kind": "exception"})
                 continue
             finally:
                 voltage.detect_bad_channels = orig
-            # independent batch placement: evenly spaced starts over [0, rl - 0.3]
-            dur = 0.3
+            # independent batch placement: evenly spaced starts over [0, rl - batch_duration]
             ok_b = len(seen) == nb
             per_batch = []
             try:
@@ -1017,7 +1063,7 @@ def part_mode(ctx, st, model):
                          {"op": "mode", "kind": "exception"})
                 continue
             if not ok_b:
-                ctx.fail("batches are not the n_batches evenly spaced 0.3 s excerpts of the data channels", d,
+                ctx.fail("batches are not the n_batches evenly spaced batch_duration excerpts of the data channels", d,
                          {"op": "mode", "kind": "batches"})
             want = [np_mode([b[c] for b in per_batch]) for c in range(nc)]
             if flags.shape != (nc,) or [int(v) for v in flags] != want:
@@ -1081,7 +1127,13 @@ def part_mode(ctx, st, model):
                     sr.close()
                     want = [np_mode([b[c] for b in per_batch]) for c in range(nc)]
                     got = {}
-                    for how, arg in (("path", fbin), ("str", str(fbin)), ("Reader", spikeglx.Reader(fbin))):
+                    args = [("path", fbin), ("str", str(fbin)), ("Reader", spikeglx.Reader(fbin))]
+                    if kind == "NP2.4":        # the same recording mtscomp-compressed (.cbin + .ch next to the .meta)
+                        srz = spikeglx.Reader(fbin)
+                        fz = srz.compress_file(keep_original=True)
+                        srz.close()
+                        args.append(("cbin path", fz))
+                    for how, arg in args:
                         got[how] = [int(v) for v in call_cbin(arg, nc, n_batches=nb)]
                         if how == "Reader":
                             arg.close()
@@ -1105,8 +1157,10 @@ def part_mode(ctx, st, model):
             inputs.append([3, nc, nb] + [v for b in per_batch for v in b])
             outs.append(got["path"])
             descs.append(dict(d, batches=per_batch))
-            st.evals += 3
+            st.evals += len(got)
             st.count("mode_permuted_file_" + kind)
+            if "cbin path" in got:
+                st.count("mode_compressed_cbin_file")
             st.nontrivial.add(("mode-file-order", kind, nb))
     finally:
         import shutil
@@ -1348,12 +1402,15 @@ def replay(ctx, data):
         x, y = np.array(inp["x"], dtype=np.int64), np.array(inp["y"], dtype=np.float64)
         sc = 2.0 ** (-inp["kd"])
         dat = [[v * sc for v in r] for r in inp["data_int"]]
-        out = impl_interp(x, y, inp["labels"], dat, inp["dtype"], inp["label_float"], inp.get("layout", "C"))
-        bad = oracle_interp(x, y, inp["labels"], dat, out, inp["dtype"]) + oracle_weights(x, y, inp["labels"])[0]
+        pp, kk = inp.get("p", P_EXP), inp.get("krig", KRIG)
+        out = impl_interp(x, y, inp["labels"], dat, inp["dtype"], inp["label_float"], inp.get("layout", "C"), pp, kk)
+        bad = oracle_interp(x, y, inp["labels"], dat, out, inp["dtype"], pp, kk) + \
+            oracle_weights(x, y, inp["labels"], pp, kk)[0]
         print("labels:", inp["labels"])
         print("implementation output:", out.tolist() if out.size < 200 else out.shape)
         print("property clauses failing on the implementation:", bad)
-        mo = common.Extracted(PROP).run_many([enc_interp(x, y, inp["labels"], inp["data_int"], inp["kd"])], nproc=1)[0]
+        mo = common.Extracted(PROP).run_many([enc_interp(x, y, inp["labels"], inp["data_int"], inp["kd"], pp, kk)],
+                                             nproc=1)[0]
         scale = max(1.0, max((abs(v) for r in inp["data_int"] for v in r), default=0) * sc)
         msg = compare_interp(mo, out, inp["labels"], scale, inp["dtype"])
         print("model output:", [v / OUT_SCALE for v in mo][:200])
